@@ -60,3 +60,24 @@ def run(case, ctx):
     return {"nontrivial": nb >= 2 and (len(seqs) >= 2 or sigchange), "fails": fails,
             "shape": (len(seqs), min(nb, 6), ragged, sigchange, crosses, case["quantise"], pc["meta"]),
             "observed": {"bars": [len(t) for t in tb], "durations": durs, "signatures": pc["ts"]}}
+
+
+def _corpus_body(rng, k):
+    from vmon import corpus
+    from scoda.sequences.sequence import Sequence
+    fs = corpus.files()
+    f = fs[k % len(fs)]
+    name, seqs = corpus.pipeline_piece(f, merge=(k // len(fs)) % 2 == 0 and "multi_track" not in f)
+    q = (k // (2 * len(fs))) % 2 == 0
+    if k >= 4 * len(fs):
+        # a random window of the piece instead of the whole piece (keeps the meta events of track 0)
+        d = max(s.get_sequence_duration() for s in seqs)
+        cut = rng.randrange(96, max(97, d))
+        seqs = [s.split([cut])[0] if s.get_sequence_duration() > cut else s for s in seqs]
+    tb = Sequence.sequences_split_bars(seqs, 0, quantise_note_lengths=q)
+    return {"file": name, "tracks": len(seqs), "quantise": q, "bars": len(tb[0])}, len(tb[0]) >= 2
+
+
+def phases(tier):
+    from vmon import corpus
+    return [("corpus", corpus.phase(8, 400, _corpus_body))]
